@@ -77,9 +77,6 @@ structure LmpF.WF (N : Nat) (f : LmpF) : Prop where
   l8 : IsLine f.l8
   natoms : f.atoms.length = N
   atoms : ∀ a ∈ f.atoms, LAtomOK N a
-  /-- audit pass: no carriage return in the file (universal-newline text mode: see `XyzF.WF.nocr`); no proof uses
-      this field, it states the domain on which the model is tied to the code -/
-  nocr : '\r' ∉ f.enc
 
 theorem lmpLate_of_nonblank (l : Line) (h : ∃ c ∈ l, isBlank c = false) : lmpLate v l = false := by
   obtain ⟨c, hc, hb⟩ := h
